@@ -118,7 +118,7 @@ func vfC24Seq(rec *evid.Rec, s int) {
 	steps := 1 + rng.Intn(6)
 	for i := 0; i < steps; i++ {
 		kind := []string{"UpdateExportOptions", "UpdateExportOptions", "UpdateTuningOptions", "UpdatePolicyOptions", "UpdateExportOptions+SquashChange", "UpdatePolicyOptions+SquashChange",
-			"UpdateExportOptions+SquashSpelling", "UpdateExportOptions(edited-in-place)", "UpdateExportOptions(edited-in-place)+SquashChange"}[rng.Intn(9)]
+			"UpdateExportOptions+SquashSpelling", "UpdateExportOptions(edited-in-place)", "UpdateExportOptions(edited-in-place)+SquashChange", "UpdatePolicyOptions+SquashUnset"}[rng.Intn(10)]
 		before := srv.nfs.GetExportOptions()
 		// value snapshots: `before` itself may share memory with the live configuration (that is
 		// one of the things being checked), so comparisons use copies taken now
@@ -274,6 +274,10 @@ func vfC24Seq(rec *evid.Rec, s int) {
 					p.Squash = "none"
 					rejected = true
 				}
+				if kind == "UpdatePolicyOptions+SquashUnset" {
+					// a policy literal that does not name Squash: refused, or accepted with the mode kept
+					p.Squash = ""
+				}
 				ops = append(ops, kind)
 				evid.Journal(ops)
 				if !vfGuardAPI(rec, "C24/update-call-never-returns/"+kind, "after "+strings.Join(ops, "; "), func() { cerr = srv.nfs.UpdatePolicyOptions(p) }) {
@@ -330,6 +334,17 @@ func vfC24Seq(rec *evid.Rec, s int) {
 					fail("C24/option-differs-from-construction-default/field="+k+"/"+kind, fmt.Sprintf("after %s GetExportOptions().%s = %v; a server constructed with the same struct reports %v", kind, k, got[k], w))
 				}
 			}
+		}
+		// the squash mode is fixed at construction: no update call, accepted or refused, changes it
+		normSquash := func(v string) string {
+			v = strings.ToLower(strings.TrimSpace(v))
+			if v == "" {
+				v = "none"
+			}
+			return v
+		}
+		if normSquash(after.Squash) != normSquash(before.Squash) {
+			fail("C24/update-changed-the-squash-mode/"+kind, fmt.Sprintf("%s (returned error: %v): Squash in force went from %q to %q", desc, cerr, before.Squash, after.Squash))
 		}
 		// reported configuration == components in force
 		if a := srv.nfs.attrCache.MaxSize(); after.AttrCacheSize > 0 && a != after.AttrCacheSize {
